@@ -62,8 +62,10 @@ def check(rep, tier, seed):
     disagreements = [(c, a, b) for c, a, b in zip(allc, impl, mod) if a != b]
     # property-directed search on the implementation alone: exhaustive over both 2^32 spaces,
     # three sinks x three sources, against the transcribed reference formula
-    stride = "1"
-    sweep = C.run([harness, "varint-sweep", "16", stride], timeout=3000).stdout.strip().splitlines()[-1]
+    # quick: every 17th value of both 2^32 spaces plus exhaustive windows of +-65536 around every place where the
+    # encoding changes shape (0, the 7-bit group boundaries and their zig-zag pre-images, 2^31, 2^32); thorough: all
+    stride = "17" if tier == "quick" else "1"
+    sweep = C.run([harness, "varint-sweep", "16", stride], timeout=6000).stdout.strip().splitlines()[-1]
     sweep_ok = sweep.startswith("SWEEP ok")
     widths = {}
     for c, a in zip(cases, impl):
@@ -76,15 +78,17 @@ def check(rep, tier, seed):
                                             if all(not v for v in ob["axioms"].values()) else
                                             "axioms: " + str(ob["axioms"])],
         "theorems": ob["theorems"],
-        "evaluations": len(allc) + (2 << 32 if sweep_ok else 0),
+        "evaluations": len(allc) + (int(sweep.split()[2]) if sweep_ok else 0),
         "distinct_nontrivial": len(set(cases)) + len(set(rcases)),
         "rule": "model-vs-implementation cases: every u32/i32 within 64 of each width boundary, all small values, "
                 "random values with uniformly chosen bit width, each with a suffix, through 3 sinks and 3 sources; "
                 "arbitrary byte strings through the three readers; all distinct by construction (set). "
-                "Plus the exhaustive sweep of all 2^32 u32 and 2^32 i32 values on the implementation against the "
-                "transcribed LEB128/zig-zag reference (whose agreement with the extracted model is part of the sampled stream).",
+                "Plus the sweep of the 2^32 u32 and 2^32 i32 values on the implementation against the transcribed "
+                "LEB128/zig-zag reference (whose agreement with the extracted model is part of the sampled stream): "
+                "thorough tier exhaustive; quick tier every 17th value plus exhaustive windows of +-65536 around 0, every "
+                "7-bit group boundary and its zig-zag pre-image, 2^31 and 2^32.",
         "samples": allc[:3] + cases[-2:] + rcases[-2:],
-        "exhaustive": bool(sweep_ok),
+        "exhaustive": bool(sweep_ok) and stride == "1",
         "encoded_width_histogram": widths,
         "disagreements_checked": len(allc),
         "disagreements": len(disagreements),
@@ -92,8 +96,8 @@ def check(rep, tier, seed):
     })
     rep.assumptions += ["usize is 64 bits; input shorter than 2^64 bytes"]
     if not sweep_ok:
-        rep.violation("exhaustive sweep: " + sweep, {"kind": "sweep", "result": sweep,
-                      "rerun": f"{harness} varint-sweep 16 1"})
+        rep.violation("sweep: " + sweep, {"kind": "sweep", "result": sweep,
+                      "rerun": f"{harness} varint-sweep 16 {stride}"})
     elif disagreements or ob["broken"]:
         # a broken proof obligation or correspondence without a failing input
         first = disagreements[0] if disagreements else None
